@@ -629,6 +629,134 @@ func c07OddMapKeys(c *rt.Ctx, sub0 int) {
 	}
 }
 
+// c07Embedded: promoted members of embedded nil pointers make the decoder allocate the embedded
+// object. It must have the embedded type's size and pointer layout: the members are written,
+// a collection and a burst of same-sized allocations follow, and the members are read back.
+func c07Embedded(c *rt.Ctx, sub0 int) {
+	doc := []byte(`{"B1":1,"B2":2,"B3":3,"B4":4,"B5":5,"B6":6,"B7":7,"B8":8,"S":"ess","P":99,"L":[1,2,3],"Q":17,"R":[4,5],"A":3,"N":1,"M":2,"Z":9}`)
+	docP := []byte(`{"PS":"pointed","Q":17,"R":[4,5],"N":1,"M":2}`)
+	churn := func() {
+		runtime.GC()
+		var keep [][]byte
+		for _, n := range []int{8, 16, 24, 32, 48, 64, 80, 96, 112, 128, 144, 160, 176, 192, 208, 224} {
+			for i := 0; i < 200; i++ {
+				b := make([]byte, n)
+				for j := range b {
+					b[j] = 0xEE
+				}
+				keep = append(keep, b)
+			}
+		}
+		runtime.GC()
+		c07Sink += keep[len(keep)-1][0]
+	}
+	bigOK := func(b *zoo.EPBig) string {
+		if b == nil {
+			return "embedded pointer still nil"
+		}
+		if b.B1 != 1 || b.B2 != 2 || b.B3 != 3 || b.B4 != 4 || b.B5 != 5 || b.B6 != 6 || b.B7 != 7 || b.B8 != 8 || b.S != "ess" || b.P == nil || *b.P != 99 || fmt.Sprint(b.L) != "[1 2 3]" {
+			p := "nil"
+			if b.P != nil {
+				p = fmt.Sprint(*b.P)
+			}
+			return fmt.Sprintf("EPBig members changed: %d %d %d %d %d %d %d %d %q *P=%s L=%v", b.B1, b.B2, b.B3, b.B4, b.B5, b.B6, b.B7, b.B8, b.S, p, b.L)
+		}
+		return ""
+	}
+	innerOK := func(in *zoo.EPInnerP, wantP bool) string {
+		if in == nil {
+			return "embedded pointer still nil"
+		}
+		if in.Q != 17 || in.R == nil || fmt.Sprint(*in.R) != "[4 5]" || (wantP && (in.PS == nil || *in.PS != "pointed")) {
+			return fmt.Sprintf("EPInnerP members changed: Q=%d R=%v PS=%v", in.Q, in.R, in.PS)
+		}
+		return ""
+	}
+	cases := []struct {
+		name  string
+		doc   []byte
+		mk    func() any
+		check func(v any) string
+	}{
+		{"EPOutSmall", doc, func() any { return &zoo.EPOutSmall{} }, func(v any) string { return bigOK(v.(*zoo.EPOutSmall).EPBig) }},
+		{"EPOutScalar", docP, func() any { return &zoo.EPOutScalar{} }, func(v any) string {
+			o := v.(*zoo.EPOutScalar)
+			if o.N != 1 || o.M != 2 {
+				return fmt.Sprintf("outer members changed: N=%d M=%d", o.N, o.M)
+			}
+			return innerOK(o.EPInnerP, true)
+		}},
+		{"EPOutMix", doc, func() any { return &zoo.EPOutMix{} }, func(v any) string {
+			o := v.(*zoo.EPOutMix)
+			if o.A != 3 || o.K0 != [16]byte{} || o.K1 != [16]byte{} {
+				return fmt.Sprintf("outer members changed: A=%d K0=%v K1=%v", o.A, o.K0, o.K1)
+			}
+			if m := bigOK(o.EPBig); m != "" {
+				return m
+			}
+			return innerOK(o.EPInnerP, false)
+		}},
+		{"EPDeep", doc, func() any { return &zoo.EPDeep{} }, func(v any) string {
+			o := v.(*zoo.EPDeep)
+			if o.Z != 9 || o.EPOutSmall == nil {
+				return fmt.Sprintf("outer members changed: Z=%d", o.Z)
+			}
+			return bigOK(o.EPOutSmall.EPBig)
+		}},
+		{"[]EPOutSmall", []byte(`[` + string(doc) + `,` + string(doc) + `,` + string(doc) + `]`), func() any { return &[]zoo.EPOutSmall{} }, func(v any) string {
+			l := *v.(*[]zoo.EPOutSmall)
+			if len(l) != 3 {
+				return fmt.Sprintf("%d elements", len(l))
+			}
+			for i := range l {
+				if m := bigOK(l[i].EPBig); m != "" {
+					return fmt.Sprintf("element %d: %s", i, m)
+				}
+			}
+			return ""
+		}},
+	}
+	for ci, cs := range cases {
+		for ei, entry := range []string{"Unmarshal", "Decoder", "UnmarshalContext"} {
+			sub := sub0 + ci*10 + ei
+			if !c.Cur(sub, "shapes=core\nembedded nil pointer: "+cs.name+" via "+entry) {
+				continue
+			}
+			for rep := 0; rep < 6; rep++ {
+				v := cs.mk()
+				var err error
+				pan, msg, _ := rt.Guard(func() {
+					switch entry {
+					case "Unmarshal":
+						err = gojson.Unmarshal(cs.doc, v)
+					case "Decoder":
+						err = gojson.NewDecoder(bytes.NewReader(cs.doc)).Decode(v)
+					default:
+						err = gojson.UnmarshalContext(context.Background(), cs.doc, v)
+					}
+				})
+				c.Eval(1)
+				if pan {
+					c.Obs("panics_seen_judged_by_C06", 1)
+					_ = msg
+					break
+				}
+				if err != nil {
+					c.Obs("embedded_pointer_decode_errors", 1)
+					break
+				}
+				churn()
+				if m := cs.check(v); m != "" {
+					c.Violate(rt.Violation{Monitor: "well-formed", Entry: entry, Kind: "embedded-object-not-its-own-allocation", Ctx: cs.name, Detail: cs.name + " via " + entry + " after a collection and allocations: " + m, Sub: sub})
+					break
+				}
+				c.Obs("embedded_pointer_decodes", 1)
+			}
+			c.NonTrivial("embedded", cs.name, entry)
+		}
+	}
+}
+
 func init() {
 	register(&Prop{
 		ID: "C07",
@@ -697,6 +825,9 @@ func init() {
 				}
 				if k == 11 && c.Idx%64 == 2 {
 					c07OddMapKeys(c, 500000)
+				}
+				if k == 11 && c.Idx%64 == 3 {
+					c07Embedded(c, 700000)
 				}
 				if k == 0 {
 					c.Sample(map[string]any{"type": t.String(), "docs": len(docs), "example_doc": docs[len(docs)/2][0], "fields": descs})
